@@ -289,7 +289,7 @@ class VCGen:
         return names
 
     def havoc(self, st, names, ghosts, tag):
-        for nm in names:
+        for nm in sorted(names):
             if nm not in st.v:
                 continue
             v = st.v[nm]
